@@ -10,14 +10,14 @@ def run(rep, tier):
     lib.proof_gate(rep, PROP, THEOREMS, IMPORTS)
     n = 500 if tier == "quick" else 160000
     n = rep.scale(n)
-    agg = runner.correspondence(rep, prop=PROP, mod_name="harness.buildersim", driver_kind="builder", ncases=n,
+    agg = runner.correspondence(rep, prop=PROP, mod_name="harness.buildersim", legal_only=True, driver_kind="builder", ncases=n,
                                 nontrivial=lambda r: r["stats"]["explicit"] >= 1 and r["stats"]["scoped"] >= 1 and r["stats"]["regs_placed"] >= 2,
                                 sample_fmt=lambda r: {"program": r["lines"][:12], "answers": r["obs"][:11]})
     rep.coverage.update(agg)
     # ---- bounded-exhaustive validation (support for the tie, not a proof): EVERY builder program of k operations
     from .. import buildersim
     k = 2 if tier == "quick" else 3
-    ex = runner.correspondence(rep, prop=PROP, mod_name="harness.buildersim", driver_kind="builder", ncases=buildersim.exh_count(k),
+    ex = runner.correspondence(rep, prop=PROP, mod_name="harness.buildersim", legal_only=True, driver_kind="builder", ncases=buildersim.exh_count(k),
                                extra=(k,))
     rep.coverage["bounded_exhaustive"] = {"program_length": k, "alphabet": len(buildersim.exh_alphabet(k)), "cases": ex["evaluations"],
                                           "correspondence_diffs": ex["correspondence_diffs"], "oracle_failures": ex["oracle_failures"],
